@@ -58,6 +58,10 @@ def trace_save(bindir, dic, wd):
         if m and ("O_TRUNC" in (m.group(3) or "") or m.group(1) == "creat"):
             ops.append(("create", os.path.basename(m.group(2))))
             continue
+        if m and "O_CREAT" in (m.group(3) or "") and ("O_WRONLY" in m.group(3) or "O_RDWR" in m.group(3)):
+            # opened for writing without truncation: whatever a killed save left in the file survives behind the new content
+            ops.append(("create-notrunc", os.path.basename(m.group(2))))
+            continue
         m = re.search(r'write\(\d+<([^>]*user-trace[^>]*)>', line)
         if m:
             ops.append(("write", os.path.basename(m.group(1))))
@@ -82,7 +86,7 @@ def trace_save(bindir, dic, wd):
     for o in ops:
         if o[0] == "mkdir":
             continue
-        if o[0] == "create" and o[1].startswith("frequency.bin") and cur:
+        if o[0] in ("create", "create-notrunc") and o[1].startswith("frequency.bin") and cur:
             saves.append(cur)
             cur = []
         cur.append(o)
@@ -101,6 +105,8 @@ def abstract(ops):
             res.append(".mkdir")
         elif o[0] == "create":
             res.append(".createTmp" if o[1].endswith(".tmp") else ".createInPlace")
+        elif o[0] == "create-notrunc":
+            res.append(".openNoTruncate")
         elif o[0] == "write":
             if not res or res[-1] != ".write":
                 res.append(".write")
@@ -153,6 +159,8 @@ def crash_dirs(ops, old, new, wd):
 def apply(d, o, content_for, cut):
     if o[0] == "create":
         open(os.path.join(d, o[1]), "wb").close()
+    elif o[0] == "create-notrunc":
+        open(os.path.join(d, o[1]), "ab").close()
     elif o[0] == "write":
         data = content_for(o[1])
         with open(os.path.join(d, o[1]), "wb") as f:
@@ -219,6 +227,9 @@ def run(run, replay=None):
             if limit is not None and n >= limit:
                 break
             n += 1
+            stale_tmp = any(x.endswith(".tmp") for x in os.listdir(d))
+            udic = os.path.join(d, "user.dic")
+            mtime0 = os.stat(udic).st_mtime_ns if os.path.exists(udic) else 0
             s2 = S.Server(bindir, dic, d, workers=4)
             try:
                 if not s2.wait_listening() or s2.conv("くるま")[0] != "ok":
@@ -230,6 +241,25 @@ def run(run, replay=None):
                 if dmp is None or json.dumps(dmp["frequencies"]) not in states_ok["freq"] or json.dumps(dmp["user_entries"]) not in states_ok["dic"]:
                     fails.append(("data-lost", {"kind": "crash-loses-data"}, w))
                     continue
+                if stale_tmp:
+                    # a temporary file left by the killed save must not leak into the next save: let one periodic save happen
+                    # with nothing changed, kill right after it, restart — the state must be the one restored from the crash directory
+                    first = S.wait_until(lambda: os.path.exists(udic) and os.stat(udic).st_mtime_ns != mtime0 and
+                                         not os.path.exists(udic + ".tmp"), 6.0, step=0.01)
+                    s2.stop()
+                    if first is None:
+                        fails.append(("saving-disabled", {"kind": "crash-loses-data", "effect": "saving-disabled"}, w))
+                        continue
+                    s2 = S.Server(bindir, dic, d, workers=4)
+                    ok3 = s2.wait_listening() and s2.conv("くるま")[0] == "ok"
+                    dmp3 = s2.dump() if ok3 else None
+                    if os.environ.get("VERIF_DEBUG"):
+                        print("DEBUG", desc, dmp["user_entries"], dmp3 and dmp3["user_entries"], flush=True)
+                    if dmp3 is None or dmp3["user_entries"] != dmp["user_entries"] or dmp3["frequencies"] != dmp["frequencies"]:
+                        fails.append(("stale-tmp-leaks", {"kind": "crash-loses-data", "effect": "stale-tmp-leaks"},
+                                      dict(w, state_before_restart=dmp["user_entries"],
+                                           state_after_one_save_and_restart=dmp3 and dmp3["user_entries"])))
+                        continue
                 # saving keeps working: learn something and see it on disk
                 learn(s2, 9)
                 saved = S.wait_until(lambda: "試験9" in (open(os.path.join(d, "user.dic"), encoding="utf-8", errors="replace").read()
